@@ -280,6 +280,82 @@ def rule_locktime_class(ctx: Ctx, rep: Report) -> None:
     rep.floor(rule, 1)
 
 
+WRAPPER_NEEDS = {"a:": ("B", "W"), "s:": ("Bo", "W"), "c:": ("K", "B"), "d:": ("Vz", "B"), "v:": ("B", "V"), "j:": ("Bn", "B")}  # miniscript spec: wrapper -> (required of X, basic type given)
+
+
+def rule_wrapper_types(ctx: Ctx, rep: Report) -> None:
+    """C15.wrapper_types: the type table's wrapper rows: `a:` needs B and gives W,
+    `s:` needs Bo (W), `c:` needs K (B), `d:` needs Vz (B), `v:` needs B (V),
+    `j:` needs Bn (B). A row that asks less admits expressions whose script
+    does not behave as the type promises (`j:` over a B that may be satisfied
+    by a zero-length input skips X when it must not)."""
+    rule = "C15.wrapper_types"
+    fi = ctx.func(f"{MS}._wrapper_properties")
+    arms = {}
+    for n in own_nodes(fi.node):
+        if isinstance(n, ast.If):
+            b: dict[str, str] = {}
+            if PT.match(PT.compile_("$f == $$w"), n.test, b):
+                w = ctx.fold(ast.parse(b["$$w"], mode="eval").body, fi.module)
+                if isinstance(w, str):
+                    arms[w] = n.body
+    for w, (need, gives) in sorted(WRAPPER_NEEDS.items()):
+        body = arms.get(w)
+        if body is None:
+            rep.unknown(rule, w, fi.where(), "no arm for this wrapper in the shape this rule reads")
+            continue
+        found = None
+        for x in (y for st in body for y in ast.walk(st)):
+            b2: dict[str, str] = {}
+            if isinstance(x, ast.Call) and PT.match(PT.compile_("_if(_has($x, $$need), _t($$gives))"), x, b2):
+                g = ctx.fold(ast.parse(b2["$$gives"], mode="eval").body, fi.module)
+                nd = ctx.fold(ast.parse(b2["$$need"], mode="eval").body, fi.module)
+                if g == gives:
+                    found = nd
+        rep.ob(rule, w, found is not None and set(found) == set(need), fi.where(body[0]), f"needs {need}, gives {gives}" if found is not None and set(found) == set(need) else
+               f"`{w}` gives {gives} to an argument with {found!r}; the specification requires {need!r}")
+    rep.floor(rule, 6)
+
+
+def rule_sugar_prefix(ctx: Ctx, rep: Report) -> None:
+    """C15.sugar_prefix: a sugared spelling written behind a wrapper needs the
+    colon the wrapper is read with: every spelling `_sugared_text` writes that
+    is itself a *name* (pk, pkh, and_n) starts with the prefix it is handed;
+    the one-letter sugars (t l u) are wrappers themselves and take none."""
+    rule = "C15.sugar_prefix"
+    fi = ctx.func(f"{MS}._sugared_text")
+    pfx = fi.params()[-1]
+    n = 0
+    for r in own_nodes(fi.node):
+        if isinstance(r, ast.Return) and isinstance(r.value, ast.JoinedStr):
+            n += 1
+            first = r.value.values[0] if r.value.values else None
+            ok = isinstance(first, ast.FormattedValue) and isinstance(first.value, ast.Name) and first.value.id == pfx
+            rep.ob(rule, str(norm(r.value))[:50], ok, fi.where(r), "starts with the prefix" if ok else
+                   f"`{norm(r.value)[:60]}` is written without the prefix: behind a wrapper it prints as e.g. `aand_n(...)`, which does not parse back")
+    rep.floor(rule, 2)
+
+
+def rule_leaf_sizes(ctx: Ctx, rep: Report) -> None:
+    """C15.leaf_sizes: the predicted size of `multi(k, keys)`: the CHECKMULTISIG
+    byte, the push of n, the push of k, and 34 bytes a key."""
+    rule = "C15.leaf_sizes"
+    fi = ctx.func(f"{MS}._leaf_script_size")
+    from sa.canon import expand
+    arm = None
+    for n in own_nodes(fi.node):
+        if isinstance(n, ast.If) and PT.match(PT.compile_("$f == 'multi'"), n.test, {}):
+            arm = n
+    if arm is None:
+        rep.unknown(rule, "multi", fi.where(), "no arm for multi")
+        return
+    a = [x for st in arm.body for x in ast.walk(st) if isinstance(x, ast.Assign)]
+    text = str(expand(fi, a[0].value)).replace(" ", "") if a else ""
+    terms = sorted(text.split("+"))
+    want = sorted(["1", "_pushed_size(len(node.keys))", "_pushed_size(node.threshold)", "34*len(node.keys)"])
+    rep.ob(rule, "multi", terms == want, fi.where(arm), "1 + push(n) + push(k) + 34 n" if terms == want else f"multi() is sized as {text}: not 1 + push(n) + push(k) + 34*n")
+
+
 def rule_tables(ctx: Ctx, rep: Report) -> None:
     """C15.tables: templates, overheads, arities and leaf tables agree."""
     rule = "C15.tables"
@@ -369,6 +445,9 @@ RULES = [
     ("C15.own_fields", rule_own_fields),
     ("C15.universe", rule_universe),
     ("C15.verify_state", rule_verify_state),
+    ("C15.wrapper_types", rule_wrapper_types),
+    ("C15.sugar_prefix", rule_sugar_prefix),
+    ("C15.leaf_sizes", rule_leaf_sizes),
     ("C15.ops_multi", rule_ops_multi),
     ("C15.locktime_class", rule_locktime_class),
     ("C15.tables", rule_tables),
@@ -376,6 +455,12 @@ RULES = [
 ]
 
 CONTROLS = [
+    {"rule": "C15.wrapper_types", "name": "j: accepts any B", "module": MS,
+     "edit": lambda ctx: M.sub_expr(ctx, f"{MS}._wrapper_properties", M.is_text("_has(x, 'Bn')"), "_has(x, 'B')")},
+    {"rule": "C15.sugar_prefix", "name": "and_n is written without the wrapper colon", "module": MS,
+     "edit": lambda ctx: M.sub_expr(ctx, f"{MS}._sugared_text", lambda n: isinstance(n, ast.JoinedStr) and "and_n" in norm(n), "f'and_n({subs[0]},{subs[1]})'")},
+    {"rule": "C15.leaf_sizes", "name": "multi() sized with two pushes of the threshold", "module": MS,
+     "edit": lambda ctx: M.sub_expr(ctx, f"{MS}._leaf_script_size", M.is_text("_pushed_size(keys)"), "_pushed_size(node.threshold)")},
     {"rule": "C15.ops_multi", "name": "multi() charged its threshold", "module": MS,
      "edit": lambda ctx: M.sub_expr(ctx, f"{MS}._leaf_ops", M.is_text("_Bounds(keys, keys)"), "_Bounds(node.threshold, node.threshold)")},
     {"rule": "C15.locktime_class", "name": "the two lock times classified with different comparators", "module": MS,
